@@ -11,9 +11,9 @@ PIPE_NOTE = ("Trusted base: TLC 1.8, the independent RTF reader (harness/rtfread
 CLAIMED = {
  "C02": ("5 C02", "TLC model checking of spec/Pipeline.tla + TLC trace validation (spec/PipeTrace.tla) of encodes read back by an independent RTF reader",
          "Every scenario TLC generates (all strategies, small tables exhaustively, large ones by -simulate) is encoded by the real rtf_encode(), read back, and TLC checks on each trace that the body rows are exactly the input rows in order with the input's display texts (tagged and random texts incl. nulls, ints, floats, blanks)."),
- "C03": ("5 C03", "TLC model checking (intended and as-implemented design) + TLC trace validation of the row budget on real encodes",
+ "C03": ("5 C03", "TLC model checking (intended and as-implemented design) + TLC trace validation of the row budget on real encodes; the intended rule additionally as an inductive invariant over unbounded integers (spec/BudgetInd.tla, Apalache)",
          "The budget invariant is model-checked on the intended design and, modulo the recorded findings, on the as-implemented design; every generated scenario is replayed through rtf_encode() and TLC sums, page by page, header, heading, data (independent line lower bound at the cell's own font) and table footnote/source rows."),
- "C04": ("5 C04", "TLC model checking of the online pagination machine + TLC trace validation incl. the two-run prefix relation",
+ "C04": ("5 C04", "TLC model checking of the online pagination machine + TLC trace validation incl. the two-run prefix relation; spec/FindBreaks.tla (public find_page_breaks) model-checked and replayed on the real method",
          "Break-only-when-required, forced breaks, non-empty contiguous pages and no-mix are invariants of the model and are evaluated by TLC on the page membership read back from real encodes; prefix stability is checked by encoding every prefix of sampled tables."),
  "C05": ("5 C05", "TLC model checking + TLC trace validation of heading placement on real encodes",
          "For 1-3 page_by levels, subline_by, dividers, every new_page/pageby_row/pageby_header choice TLC checks on every trace that the headings immediately before each data row are exactly the expected ones and that no heading is stranded."),
@@ -23,19 +23,19 @@ CLAIMED = {
          "The five border clauses are invariants of the model (branch-by-branch transcription of the border pass) and are evaluated by TLC on the \\clbrdr* of every table row of every page of real encodes, with distinguishable styles per setting."),
  "C08": ("5 C08", "TLC trace validation (integer cross-multiplied proportionality) of \\cellx read back from real encodes of TLC-generated scenarios",
          "Right edge, proportional boundaries within one twip, header alignment and single-cell spanning rows are evaluated by TLC on the cell boundaries of every table row, for 1..12 columns, removal of group columns at any position, four width patterns, four header modes and three paper sizes."),
- "C09": ("5 C09", "TLC model checking of spec/CellFormat.tla + TLC trace validation (spec/CellTrace.tla) of every data cell's format read back from paginated and unpaginated encodes",
+ "C09": ("5 C09", "TLC model checking of spec/CellFormat.tla + TLC trace validation (spec/CellTrace.tla) of every data cell's format read back from paginated and unpaginated encodes; spec/Broadcast.tla (recycling algebra) model-checked and every behaviour replayed on the real BroadcastValue",
          "For each of the 27 body attributes, in scalar / per-column / matrix shape, TLC generates tables, page splits and removed-column positions; the real encode is read back and TLC checks every data cell against the value the attribute specifies for its original (row, column), and against the unpaginated rendering of the same table."),
  "C13": ("5 C13", "TLC model checking of spec/GroupBy.tla + TLC trace validation (spec/GroupTrace.tla) of group_by columns read back from real encodes",
          "All key sequences over {a,b,null} up to length 4-6 (1-2 levels) exhaustively, longer ones with 1-3 levels by simulation: TLC checks the blanking rule per observed row (with the observed page structure), untouched other columns, fill-down, and ValueError iff non-contiguous."),
  "C12": ("5 C12", "TLC model checking of spec/ColorCtx.tla and spec/ColorDoc.tla + TLC trace validation (spec/ColorTrace.tla) of every colour and font reference read back from real encodes",
          "Each of the 657 named colours on a body cell (exhaustive), all encoding paths x component modes (exhaustive) and random palettes of 1..8 colours on random components as text/background/border colour with the 10 fonts: TLC checks that every \\cf/\\chcbpat/\\brdrcf index names the document's own table entry with the requested RGB and every \\fN the requested font."),
  "C14": ("5 C14", "TLC model checking of operation histories (spec/ColorHist.tla over spec/ColorCtx.tla) + TLC trace validation (spec/HistTrace.tla) of histories executed in forked children",
-         "TLC enumerates all histories up to the exhaustive length over a pool of 9 documents (and simulates length-4 ones); each is executed in a forked child of an import-only parent and TLC checks, per operation, that the output digest equals the one from a fresh interpreter, that ValueError is raised exactly by the failing document, and that the caller's DataFrame is unchanged."),
+         "TLC enumerates all histories up to the exhaustive length over a pool of 20 documents (two families sharing an RTFBody) (and simulates length-4 ones); each is executed in a forked child of an import-only parent and TLC checks, per operation, that the output digest equals the one from a fresh interpreter, that ValueError is raised exactly by the failing document, and that the caller's DataFrame is unchanged."),
  "C15": ("5 C15", "TLC model checking of all thread interleavings (spec/ColorCtx.tla), TLC-generated schedules replayed on real threads with a settrace gate, single preemption at every library call boundary, conformance of recorded colour events (spec/CtxTrace.tla)",
          "All interleavings of 2 and 3 encoder processes are model-checked; every sampled TLC schedule of colour-context steps is replayed on real threads; thread A is preempted at every distinct library function call (thorough: every call instance) with thread B run to completion, plus sampled 2-3 preemptions with 3 threads; TLC judges that each thread's output equals its output alone and that the recorded colour events are a behaviour of the per-thread-context specification."),
  "C17": ("5 C17", "TLC model checking of spec/Assemble.tla (files as classified lines) + TLC trace validation (spec/AssembleTrace.tla) of assembled files read back",
          "All argument lists of up to 2-3 inputs over table/figure x colour x header/footer x 1-2 pages (exhaustive), lists with missing files, simulated lists of up to 6 inputs incl. landscape: the files are written by write_rtf, assembled by assemble_rtf, read back, and TLC checks well-formedness, page-by-page equality with the concatenated inputs, restated geometry at each input's first page, single-input identity, empty list and missing file behaviour."),
- "C18": ("5 C18", "TLC model checking of spec/Export.tla (fault points x converter outcomes x target states x writers) + TLC trace validation (spec/ExportTrace.tla) of file-system events and before/after snapshots of real exports with injected faults",
+ "C18": ("5 C18", "TLC model checking of spec/Export.tla (fault points x converter outcomes x target states x writers) + TLC trace validation (spec/ExportTrace.tla) of file-system events and before/after snapshots of real exports with injected faults (exceptions at call boundaries, OSError at file-system operations), stub converters and the real LibreOfficeConverter driving a fake program; spec/Converter.tla + spec/ConvTrace.tla validate the program's own invocation log",
          "Every scenario TLC enumerates is executed: converter stubs for all outcomes, targets absent/existing/in a missing directory, and a BaseException or Exception raised at the first instance of every distinct library call site (thorough: 2500 sampled call instances, all writers); TLC checks that a failure leaves the target bytes, its directory listing and the temporary directory unchanged, that a success puts exactly the expected bytes (and the HTML resource folder) at the target, and that the target is touched only by the final step."),
  "C10": ("5 C10", "TLC model checking of spec/UniEsc.tla (escape -> write -> read per code-point class and text position) + TLC trace validation (spec/UniTrace.tla) of files written by write_rtf and decoded from their bytes",
          "Class representatives x 12 text positions x conversion on/off (TLC-enumerated), random mixed strings, and a code-point sweep through body cells (quick: boundaries +-64 and 30 000 sampled; thorough: every scalar value except C0/C1 controls): TLC checks that the reader decodes exactly the input, that every \\u argument is within -32768..32767 and is followed by exactly uc fallback characters."),
